@@ -194,7 +194,7 @@ def main(tier, replay=None):
     q = tier == "quick"
     work = common.tmpdir("c15-")
     runs = [("paste", 2 if q else 3, "0..1"), ("reverse", 3 if q else 4, "0..1"), ("iadd", 2, "0..1"),
-            ("classify", 3 if q else 4, "0..2" if q else "0..3")]
+            ("classify", 3 if q else 4, "(-2)..1" if q else "(-2)..2")]
     try:
         for fam, maxlen, ops in runs:
             cfg = os.path.join(work, f"PathAlg_{fam}.cfg")
